@@ -168,6 +168,7 @@ impl<T> RcInner<T> {
     ///
     /// The given `ptr` must not be shared across more than one thread.
     pub(crate) unsafe fn dealloc(ptr: *mut Self) {
+        vev!(DEALLOC, ptr, 0);
         drop(Box::from_raw(ptr));
     }
 
@@ -183,6 +184,7 @@ impl<T> RcInner<T> {
 
     #[inline]
     pub(crate) fn increment_strong(&self) -> bool {
+        vp!(INC_S_1);
         let val = State::from_raw(self.state.fetch_add(COUNT, Ordering::SeqCst));
         if val.destructed() {
             return false;
@@ -190,6 +192,7 @@ impl<T> RcInner<T> {
         if val.strong() == 0 {
             // The previous fetch_add created a permission to run decrement again.
             // Now create an actual reference.
+            vp!(INC_S_2);
             self.state.fetch_add(COUNT, Ordering::SeqCst);
         }
         true
@@ -197,6 +200,7 @@ impl<T> RcInner<T> {
 
     #[inline]
     unsafe fn try_dealloc(ptr: *mut Self) {
+        vp!(TDA_LOAD);
         if State::from_raw((*ptr).state.load(Ordering::SeqCst)).weak() > 0 {
             Self::decrement_weak(ptr, None);
         } else {
@@ -206,11 +210,13 @@ impl<T> RcInner<T> {
 
     #[inline]
     pub(crate) fn increment_weak(&self, count: u32) {
+        vp!(INC_W_LOAD);
         let mut old = State::from_raw(self.state.load(Ordering::SeqCst));
         while !old.weaked() {
             // In this case, `increment_weak` must have been called from `Rc::downgrade`,
             // guaranteeing weak > 0, so it can’t be incremented from 0.
             debug_assert!(old.weak() != 0);
+            vp!(INC_W_CAS);
             match self.state.compare_exchange(
                 old.as_raw(),
                 old.with_weaked(true).add_weak(count).as_raw(),
@@ -221,6 +227,7 @@ impl<T> RcInner<T> {
                 Err(curr) => old = State::from_raw(curr),
             }
         }
+        vp!(INC_W_FA1);
         if State::from_raw(
             self.state
                 .fetch_add(count as u64 * WEAK_COUNT, Ordering::SeqCst),
@@ -228,6 +235,7 @@ impl<T> RcInner<T> {
         .weak()
             == 0
         {
+            vp!(INC_W_FA2);
             self.state.fetch_add(WEAK_COUNT, Ordering::SeqCst);
         }
     }
@@ -235,6 +243,7 @@ impl<T> RcInner<T> {
     #[inline]
     pub(crate) unsafe fn decrement_weak(ptr: *mut Self, guard: Option<&Guard>) {
         debug_assert!(State::from_raw((*ptr).state.load(Ordering::SeqCst)).weak() >= 1);
+        vp!(DEC_W);
         if State::from_raw((*ptr).state.fetch_sub(WEAK_COUNT, Ordering::SeqCst)).weak() == 1 {
             guard.defer_with_inner(ptr, |inner| Self::try_dealloc(inner));
         }
@@ -242,8 +251,10 @@ impl<T> RcInner<T> {
 
     #[inline]
     pub(crate) fn is_not_destructed(&self) -> bool {
+        vp!(IND_LOAD);
         let mut old = State::from_raw(self.state.load(Ordering::SeqCst));
         while !old.destructed() && old.strong() == 0 {
+            vp!(IND_CAS);
             match self.state.compare_exchange(
                 old.as_raw(),
                 old.add_strong(1).as_raw(),
@@ -264,8 +275,10 @@ impl<T: RcObject> RcInner<T> {
         let epoch = global_epoch();
         // Should mark the current epoch on the strong count with CAS.
         let hit_zero = loop {
+            vp!(DEC_S_LOAD);
             let curr = State::from_raw((*ptr).state.load(Ordering::SeqCst));
             debug_assert!(curr.strong() >= count);
+            vp!(DEC_S_CAS);
             if (*ptr)
                 .state
                 .compare_exchange(
@@ -297,6 +310,7 @@ impl<T: RcObject> RcInner<T> {
 
     #[inline]
     unsafe fn try_destruct(ptr: *mut Self) {
+        vp!(TD_LOAD);
         let mut old = State::from_raw((*ptr).state.load(Ordering::SeqCst));
         debug_assert!(!old.destructed());
         loop {
@@ -304,6 +318,7 @@ impl<T: RcObject> RcInner<T> {
                 Self::decrement_strong(ptr, 1, None);
                 return;
             }
+            vp!(TD_CAS);
             match (*ptr).state.compare_exchange(
                 old.as_raw(),
                 old.with_destructed(true).as_raw(),
@@ -320,6 +335,7 @@ impl<T: RcObject> RcInner<T> {
 
 #[inline]
 unsafe fn dispose<T: RcObject>(inner: *mut RcInner<T>) {
+    vev!(MARKED, inner, 0);
     DISPOSE_COUNTER.with(|counter| {
         let guard = &cs();
         dispose_general_node(inner, 0, counter, guard);
@@ -348,10 +364,12 @@ unsafe fn dispose_general_node<T: RcObject>(
 
     if depth >= 1024 {
         // Prevent a potential stack overflow.
+        vev!(REDEFER, ptr, depth);
         guard.defer_with_inner(rc, |rc| RcInner::try_destruct(rc));
         return;
     }
 
+    vp!(CASC_STATE);
     let state = State::from_raw(rc.state.load(Ordering::SeqCst));
     let node_epoch = state.epoch();
     debug_assert_eq!(state.strong(), 0);
@@ -364,9 +382,11 @@ unsafe fn dispose_general_node<T: RcObject>(
     // old enough, `modu.le` may return false.
     if depth == 0 || modu.le(node_epoch as _, curr_epoch as isize - 3) {
         // The current node is immediately reclaimable.
+        vev!(DISPOSE, ptr, depth);
         rc.data_mut().pop_edges(&mut outgoings);
         unsafe {
             ManuallyDrop::drop(&mut rc.storage);
+            vp!(CASC_WEAKED);
             if State::from_raw(rc.state.load(Ordering::SeqCst)).weaked() {
                 RcInner::decrement_weak(rc, Some(guard));
             } else {
@@ -384,11 +404,13 @@ unsafe fn dispose_general_node<T: RcObject>(
 
             // Decrement next node's strong count and update its epoch.
             let next_cnt = loop {
+                vp!(CASC_LOAD);
                 let cnt_curr = State::from_raw(next_ref.state.load(Ordering::SeqCst));
                 let next_epoch =
                     modu.max(&[node_epoch as _, link_epoch as _, cnt_curr.epoch() as _]);
                 let cnt_next = cnt_curr.sub_strong(1).with_epoch(next_epoch as _);
 
+                vp!(CASC_CAS);
                 if next_ref
                     .state
                     .compare_exchange(
@@ -410,6 +432,7 @@ unsafe fn dispose_general_node<T: RcObject>(
         }
     } else {
         // It is likely to be unsafe to reclaim right now.
+        vev!(REDEFER, ptr, depth);
         guard.defer_with_inner(rc, |rc| RcInner::try_destruct(rc));
     }
 }
